@@ -225,6 +225,10 @@ func checkImage(img *simdisk.Disk, cur *storeModel, fl *histOp, where string, c 
 	}
 	openSeq := img.Seq() // file-system operations of the recovery itself end here
 	harnessMutated = false
+	recoverVariant = mi
+	if fl != nil {
+		recoverVariant += len(fl.desc)
+	}
 	closed := false
 	defer func() {
 		if !closed {
@@ -292,6 +296,12 @@ func checkImage(img *simdisk.Disk, cur *storeModel, fl *histOp, where string, c 
 // harnessMutated is set when checkRecovered changed the store's content itself.
 var harnessMutated bool
 
+// recoverVariant selects optional extra steps of checkRecovered from LOGICAL
+// coordinates (crash mode index + index of the in-flight operation in the
+// history), never from physical file-system op numbers, which may shift with
+// the timing of Pebble's background cleanup.
+var recoverVariant int
+
 // checkRecovered decides which of the admissible models the recovered store
 // shows; returns the matching model.
 func checkRecovered(s *PebbleScanner, cur *storeModel, fl *histOp, where string, c vs.Counters) (*storeModel, *vs.Violation) {
@@ -316,7 +326,7 @@ func checkRecovered(s *PebbleScanner, cur *storeModel, fl *histOp, where string,
 		// re-run (deletes the first signature, adds another): the re-run must still
 		// restore full consistency for whatever records exist then.
 		mm := fl.before
-		if ids := fl.before.ids(); len(ids) > 0 && (len(where)%2 == 0 || len(ids) > 1000) {
+		if ids := fl.before.ids(); len(ids) > 0 && (recoverVariant%2 == 0 || len(ids) > 1000) {
 			mm = fl.before.clone()
 			harnessMutated = true
 			if err := s.DeleteSignature(ids[0]); err != nil {
